@@ -443,5 +443,9 @@ pub fn history_case(data: &[u8], focus: &[&str], ctx: &crate::report::Ctx, drain
         Err(_) => return Ok(()),
     };
     let mut st = crate::report::Stats::default();
+    if focus == ["C03"] {
+        // the same check as the generated one: no panic anywhere in the history, and the client stays usable
+        return crate::props::c03::check_client(&h, ctx, &mut st);
+    }
     run_history(&h, focus, ctx, &mut st, drain).map(|_| ())
 }
